@@ -1,6 +1,7 @@
 (* C14 - diagnostics point at the offending construct in the user's own file.
    Property theorems only; proofs live in RegionProofs.v. *)
 From HclV Require Import Base Yo Region RegionSpec RegionProofs RegionMultiSpec RegionMultiProofs.
+From HclV Require LexLocSpec LexLocProofs.
 Open Scope list_scope.
 Open Scope N_scope.
 
@@ -98,3 +99,23 @@ Print Assumptions C14_never_preamble_several_lines.
 Theorem C14_line_number_and_bounds : stmt_lnb_names_line.
 Proof. exact lnb_names_line_holds. Qed.
 Print Assumptions C14_line_number_and_bounds.
+
+(* ---- lexical diagnostics end to end in the model (LexLocSpec.v / LexLocProofs.v): what the error
+   offset means, and that the rendering names the user's file, the right line and column --------- *)
+Theorem C14_lexical_error_offset_means_the_offending_text : LexLocSpec.stmt_lex_error_meaning.
+Proof. exact LexLocProofs.lex_error_meaning_holds. Qed.
+Print Assumptions C14_lexical_error_offset_means_the_offending_text.
+Theorem C14_invalid_constant_span_is_the_literal : LexLocSpec.stmt_invalid_constant_bytes.
+Proof. exact LexLocProofs.invalid_constant_bytes_holds. Qed.
+Print Assumptions C14_invalid_constant_span_is_the_literal.
+Theorem C14_unterminated_comment_points_at_its_opener : LexLocSpec.stmt_unterminated_comment_bytes.
+Proof. exact LexLocProofs.unterminated_comment_bytes_holds. Qed.
+Print Assumptions C14_unterminated_comment_points_at_its_opener.
+(* after the compiled preamble, a lexical error of the user's text is rendered as the one-line
+   region of its line in the user's file (never <builtin>), with 1 / 2 / literal-length carets *)
+Theorem C14_lexical_diagnostic_located : LexLocSpec.stmt_lexical_diagnostic_located_gen.
+Proof. exact LexLocProofs.lexical_diagnostic_located_gen_holds. Qed.
+Print Assumptions C14_lexical_diagnostic_located.
+Theorem C14_compiled_preamble_lexes : LexLocSpec.stmt_gen_preamble_ok.
+Proof. exact LexLocProofs.gen_preamble_ok_holds. Qed.
+Print Assumptions C14_compiled_preamble_lexes.
